@@ -675,10 +675,10 @@ def _hooks_after_preamble(p, pre):
 
 def _e2e_class(label, segs, payload):
     """recorded-finding classes of the end-to-end check"""
-    if "without OWS" in label:
-        return "[no-ows]"
     if len(segs) > 1 and payload[:1].isalpha() and b"HTTP/" not in segs[0]:
         return "[first-segment-shorter-than-request-line]"
+    if "without OWS" in label:
+        return "[no-ows]"
     if len(segs) > 1 and payload[:1] == b"\x16" and len(segs[0]) < 6:
         return "[first-segment-shorter-than-tls-record-header]"
     return ""
